@@ -61,6 +61,7 @@ type FrameHeader struct {
 // AcquireFrameHeader gets a FrameHeader from pool.
 func AcquireFrameHeader() *FrameHeader {
 	fr := frameHeaderPool.Get().(*FrameHeader)
+	verifPoolGet(1, fr)
 	fr.Reset()
 	return fr
 }
@@ -68,6 +69,7 @@ func AcquireFrameHeader() *FrameHeader {
 // ReleaseFrameHeader reset and puts fr to the pool.
 func ReleaseFrameHeader(fr *FrameHeader) {
 	ReleaseFrame(fr.Body())
+	verifPoolPut(1, fr)
 	frameHeaderPool.Put(fr)
 }
 
@@ -140,6 +142,7 @@ func ReadFrameFrom(br *bufio.Reader) (*FrameHeader, error) {
 		if fr.Body() != nil {
 			ReleaseFrameHeader(fr)
 		} else {
+			verifPoolPut(1, fr)
 			frameHeaderPool.Put(fr)
 		}
 
@@ -158,6 +161,7 @@ func ReadFrameFromWithSize(br *bufio.Reader, max uint32) (*FrameHeader, error) {
 		if fr.Body() != nil {
 			ReleaseFrameHeader(fr)
 		} else {
+			verifPoolPut(1, fr)
 			frameHeaderPool.Put(fr)
 		}
 
